@@ -21,13 +21,14 @@ ENGINES = {
 def main():
     props = [json.loads(line) for line in open(os.path.join(ROOT, "properties.jsonl"), encoding="utf-8")]
     checks, na = [], []
+    ready = set(json.load(open(os.path.join(ROOT, "vf", "ready.json"), encoding="utf-8")))
     for p in props:
         pid = p["id"]
         try:
             mod = importlib.import_module(f"vf.props.{pid.lower()}")
         except ModuleNotFoundError:
             mod = None
-        if mod is None or not getattr(mod, "READY", True):
+        if mod is None or pid not in ready:
             na.append({"property_id": pid, "reason": getattr(mod, "NOT_READY_REASON", "runtime-monitoring check designed (DESIGN.md section 2) but not built yet; not claimed until it runs silent on the unchanged tree")})
             continue
         engine = next(k for k, v in ENGINES.items() if pid in v)
